@@ -1152,7 +1152,8 @@ func (r *RouteTable) resyncIface(nl netlinkshim.Interface, ifaceName string) err
 				"flags":       routeFilterFlags,
 			}).Error("Error listing routes")
 			r.nl.MarkHandleForReopen()
-			return nil
+			// Return the error so that the interface stays queued for rescan.
+			return filteredErr
 		} else {
 			r.logCxt.WithError(filteredErr).WithField("iface", ifaceName).Debug(
 				"Failed to list routes; interface down/gone.")
